@@ -800,3 +800,24 @@ func init() {
 		Assumptions: []string{"duplicate members and members differing only in letter case are not generated (don't-care)", "the schema in props/c12/schema.go is the reference reading of the format"},
 	})
 }
+
+// ---- exported for C15 (the same corruption walk pushed through the whole pipeline) ----------------
+
+// NamedCorruption is one single-point structural corruption of a dumped document.
+type NamedCorruption struct {
+	Name  string
+	Apply func(doc map[string]any)
+}
+
+// Corruptions lists every single-point structural corruption of the dumped document raw.
+func Corruptions(raw []byte, dsse, isLayout bool) []NamedCorruption {
+	var out []NamedCorruption
+	for _, c := range corruptions(raw, dsse, isLayout) {
+		out = append(out, NamedCorruption{c.Name, c.Apply})
+	}
+	return out
+}
+
+// FullLayout and FullLink are the fully populated catalogue elements.
+func FullLayout() intoto.Layout { return fullLayout() }
+func FullLink() intoto.Link     { return fullLink() }
